@@ -449,7 +449,7 @@ class Simulation:
         self._summary = self._build_summary()
         return self._summary
 
-    def _execute_until(self, end_time_ns: int) -> None:
+    def _execute_until(self, end_time_ns: int, *, stop_at_boundary: bool = False) -> None:
         """Run the pop-invoke-push loop until time exceeds end_time_ns.
 
         This is the extracted inner loop shared by ``_run_loop_fast`` (normal
@@ -473,6 +473,10 @@ class Simulation:
         router = self._event_router
 
         while heap_has_events() and current_time.nanoseconds <= end_time_ns:
+            # Windowed execution must not run past the barrier: an event from
+            # another partition may still arrive before the next local event.
+            if stop_at_boundary and heap.peek().time.nanoseconds > end_time_ns:
+                break
             event = heap_pop()
 
             if event._cancelled:
@@ -542,7 +546,7 @@ class Simulation:
 
         with _active_sim_context(self._event_heap, self._clock):
             with _active_debugger_context(None):
-                self._execute_until(window_end.nanoseconds)
+                self._execute_until(window_end.nanoseconds, stop_at_boundary=True)
 
     def _build_summary(self) -> SimulationSummary:
         """Build a SimulationSummary from current state."""
